@@ -143,7 +143,11 @@ class MrpConnection(
 
         while self._buffer:
             # The variant tells us how much data must follow
-            length, raw = read_variant(self._buffer)
+            try:
+                length, raw = read_variant(self._buffer)
+            except ValueError:
+                # Length prefix is split over several reads, wait for more data
+                break
             if len(raw) < length:
                 _LOGGER.debug(
                     "%s Require %d bytes but only %d in buffer",
